@@ -152,6 +152,27 @@ def regular_case(p, res):
                     i = 0 if tuple(out.shape) != tuple(X.shape) else int((out.to(torch.float32) != X).any(dim=1).nonzero()[0])
                     res.viol(comp, cfg, "clean", f"[{n},{k}] code, {iters} iterations: noise-free LLRs (magnitude {mag}) of message {msgs[i]} decoded to {out[i].tolist() if out.dim() == 2 else tuple(out.shape)}", {"mag": mag, "iters": iters})
                     break
+    # one call of 5003 rows (codewords in an irregular order, magnitudes varying from row to row): row i is decoded as it is decoded alone
+    order = [(7 * i + i // 3) % len(msgs) for i in range(5003)]
+    mags = torch.tensor([[0.5 + 0.37 * ((11 * i) % 29)] for i in range(5003)], dtype=torch.float32)
+    Xb, Cb = X[order], cw[order]
+    for dname, comp, mk in (("bp,atanh=1", "bp", lambda: D.BeliefPropagationDecoder(enc, bp_iters=10)), ("minsum", "minsum", lambda: D.MinSumLDPCDecoder(enc, bp_iters=10)),
+                            ("minsum,norm=1", "minsum", lambda: D.MinSumLDPCDecoder(enc, bp_iters=10, normalized=True))):
+        cfg = f"{nm},{dname},rows=5003"
+        try:
+            dec = mk()
+            out = dec((1 - 2 * Cb) * mags)
+            soft_big = dec((1 - 2 * Cb) * mags, return_soft=True)
+            soft_one = dec(((1 - 2 * Cb) * mags)[4500:4503], return_soft=True)
+        except Exception as e:  # noqa: BLE001
+            res.viol(comp, cfg, "raises", f"{type(e).__name__}: {str(e)[:200]}")
+            continue
+        res.ev(5003, nontrivial=5003, transitions=3)
+        if tuple(out.shape) != tuple(Xb.shape) or not torch.equal(out.to(torch.float32), Xb):
+            i = 0 if tuple(out.shape) != tuple(Xb.shape) else int((out.to(torch.float32) != Xb).any(dim=1).nonzero()[0])
+            res.viol(comp, cfg, "clean", f"row {i} of a batch of 5003 noise-free words (message {Xb[i].tolist()}) decoded to {out[i].tolist() if out.dim() == 2 else tuple(out.shape)}", {"row": i})
+        elif isinstance(soft_big, tuple) and isinstance(soft_one, tuple) and not torch.allclose(soft_big[1][4500:4503], soft_one[1], rtol=1e-5, atol=1e-5):
+            res.viol(comp, cfg, "clean", "soft outputs of rows 4500..4502 differ between the batch of 5003 and the same rows decoded alone")
     res.outcome((nm, n, k))
     res.sample({"code": nm, "n": n, "k": k, "iterations": list(iters_list)})
 
